@@ -108,6 +108,46 @@ Section Facts.
       pose proof (base_handlers_ok h Hh) as Hf. rewrite Forall_forall in Hf. exact (Hf kh Hin args r Ha H).
   Qed.
 
+  (* ---------------------------------------------------------------- the CASE chain as one composite constructor *)
+  Definition cmeth (key : string) (args : list (aarg V)) (st : option exp) : option exp :=
+    opt_bind st (fun e => lookup_h V key (case_handlers V e) args).
+
+  (* Case(ex?).When(c1).Then(r1) ... [.Else(els)].End() *)
+  Definition case_chain (ex : exp) (conds : list (exp * exp)) (els : exp) : option exp :=
+    let start := lookup_h V "Case" (case_ctors V) [AExps (if is_nil ex then [] else [ex])] in
+    let body := fold_left (fun st c => cmeth "CaseWhenBuilder.Then" [AExp (snd c)] (cmeth "CaseBuilder.When" [AExp (fst c)] st))
+                          conds start in
+    cmeth "CaseBuilder.End" [] (if is_nil els then body else cmeth "CaseBuilder.Else" [AExp els] body).
+
+  Lemma case_body s ex els (conds : list (exp * exp)) : forall acc,
+    fold_left (fun st c => cmeth "CaseWhenBuilder.Then" [AExp (snd c)] (cmeth "CaseBuilder.When" [AExp (fst c)] st))
+              conds (Some (ECase s ex acc els))
+    = Some (ECase s ex (acc ++ conds) els).
+  Proof.
+    induction conds as [|[c r] rest IH]; intro acc; cbn [fold_left]; [now rewrite app_nil_r|].
+    assert (E : cmeth "CaseWhenBuilder.Then" [AExp r] (cmeth "CaseBuilder.When" [AExp c] (Some (ECase s ex acc els)))
+                = Some (ECase s ex (acc ++ [(c, r)]) els)).
+    { unfold cmeth at 2. cbn [opt_bind case_handlers]. unfold lookup_h at 1. cbn [find fst snd String.eqb Ascii.eqb Bool.eqb].
+      unfold cmeth. cbn [opt_bind case_handlers]. unfold lookup_h. cbn [find fst snd String.eqb Ascii.eqb Bool.eqb].
+      assert (U : forall (l : list (exp * exp)) x g, upd_last g (l ++ [x]) = Some (l ++ [g x])).
+      { induction l as [|y l IHl]; intros x g; [reflexivity|]. destruct l as [|z l]; [reflexivity|].
+        change (upd_last g ((y :: z :: l) ++ [x])) with (option_map (cons y) (upd_last g ((z :: l) ++ [x]))). now rewrite IHl. }
+      rewrite U. reflexivity. }
+    cbn [fst snd]. rewrite E, IH, <- app_assoc. reflexivity.
+  Qed.
+
+  Theorem case_chain_result ex conds els :
+    case_chain ex conds els = Some (set_self (ECase ENil ex conds els)).
+  Proof.
+    unfold case_chain.
+    assert (S0 : lookup_h V "Case" (case_ctors V) [AExps (if is_nil ex then [] else [ex])] = Some (ECase ENil ex [] ENil)).
+    { destruct ex; reflexivity. }
+    rewrite S0, (case_body ENil ex ENil conds []). cbn [app].
+    destruct (is_nil els) eqn:En.
+    - destruct els; try discriminate. reflexivity.
+    - destruct els; try discriminate; reflexivity.
+  Qed.
+
   (* ---------------------------------------------------------------- everything that can be built *)
   (* values built in at most n nested calls of the modelled API: constructors, methods of expression values, entry
      points and methods of the statement builders, the WITH builders - every expression argument being built
@@ -134,7 +174,9 @@ Section Facts.
            \/ (exists key recv args, P recv /\ ok args /\ lookup_h V key (exp_meth_handlers recv) args = Some e)
            \/ (exists name args, ok args /\ entry name args = Some e)
            \/ (exists rt m recv args, P recv /\ ok args /\ query_ok V (mkey rt m) args /\ api rt m recv args = Some e)
-           \/ (exists m w args, Pw w /\ ok args /\ api_with m w args = Some (RExp e)),
+           \/ (exists m w args, Pw w /\ ok args /\ api_with m w args = Some (RExp e))
+           \/ (exists ex conds els, (is_nil ex = true \/ P ex) /\ Forall (fun c => P (fst c) /\ P (snd c)) conds /\
+                                    (is_nil els = true \/ P els) /\ case_chain ex conds els = Some e),
          fun w =>
            Pw w
            \/ (exists name args, entry_with name args = Some w)
@@ -234,7 +276,7 @@ Section Facts.
     split.
     - intros e H. cbn [builtn fst] in H.
       destruct H as [H|[(name & args & Ha & H)|[(key & recv & args & Hr & Ha & H)|[(name & args & Ha & H)|
-                    [(rt & m & recv & args & Hr & Ha & Hq & H)|(m & w & args & Hw & Ha & H)]]]]].
+                    [(rt & m & recv & args & Hr & Ha & Hq & H)|[(m & w & args & Hw & Ha & H)|(ex & conds & els & Hex & Hc & Hel & H)]]]]]].
       + now apply IHe.
       + exact (ctor_wfe name args e (A args Ha) H).
       + exact (meth_wfe key recv args e (IHe recv Hr) (A args Ha) H).
@@ -243,6 +285,12 @@ Section Facts.
         * apply hwf_of_wfe_stmt; [exact (api_wfe V rt m recv args e (W recv Hr) (A args Ha) Hq H)|exact Hn].
         * rewrite Forall_forall in Ha. exact (IHe e (Ha (AExp e) Hin)).
       + apply hwf_of_wfe_stmt; [exact (api_with_ok V m w args (RExp e) (IHw w Hw) (A args Ha) H)|exact (api_with_result_stmt m w args e H)].
+      + rewrite case_chain_result in H. injection H as <-.
+        apply hwf_set_self; [cbn; discriminate|]. cbn [wfe]. unfold nil_or.
+        assert (X : (is_nil ex || wfe ex) = true) by (destruct Hex as [->|Hx]; [reflexivity|rewrite (W ex Hx); apply orb_true_r]).
+        assert (Y : (is_nil els || wfe els) = true) by (destruct Hel as [->|Hx]; [reflexivity|rewrite (W els Hx); apply orb_true_r]).
+        rewrite X, Y, andb_true_r. cbn [andb].
+        induction Hc as [|c r [H1 H2] _ IHc]; cbn [forallb]; [reflexivity|]. now rewrite (W _ H1), (W _ H2), IHc.
     - intros w H. cbn [builtn snd] in H.
       destruct H as [H|[(name & args & H)|(m & w0 & args & Hw & Ha & H)]].
       + now apply IHw.
